@@ -355,8 +355,13 @@ class Rule_AL05(BaseRule):
     def _report_unused_alias(self, alias: AliasInfo) -> LintResult:
         fixes = [LintFix.delete(alias.alias_expression)]  # type: ignore
         # Walk back to remove indents/whitespaces
+        # NOTE: The alias expression isn't always a direct child of the from
+        # expression element (e.g. when the table expression is bracketed),
+        # so look for its siblings in its direct parent.
+        path = alias.from_expression_element.path_to(alias.alias_expression)
+        parent = path[-1].segment if path else alias.from_expression_element
         to_delete = (
-            Segments(*alias.from_expression_element.segments)
+            Segments(*parent.segments)
             .reversed()
             .select(
                 start_seg=alias.alias_expression,
